@@ -1358,3 +1358,63 @@ mut("c05-quiet-extract-helper-and", ["C05"], [(Q, _H_OLD, _H_CALL), (Q, _H_ANCHO
 mut("c05-quiet-extract-helper-ifs", ["C05"], [(Q, _H_OLD, _H_CALL), (Q, _H_ANCHOR, _helper("	if err != nil {\n		return false\n	}\n	return filterHeader == curHeader\n"))], [])
 mut("c05-extract-helper-or", ["C05"], [(Q, _H_OLD, _H_CALL), (Q, _H_ANCHOR, _helper("	return err == nil || filterHeader == curHeader\n"))], ["C05.G1"])
 mut("c05-extract-helper-wrong-index", ["C05"], [(Q, _H_OLD, _H_CALL.replace("(i, filter)", "(i-1, filter)")), (Q, _H_ANCHOR, _helper("	return err == nil && filterHeader == curHeader\n"))], ["C05.V1"])
+
+# ---- rules added after the second batch of independently seeded changes ----
+mut("c15-buffered-confchan", ["C15"], [(PB, "confChan:      make(chan chainhash.Hash),", "confChan:      make(chan chainhash.Hash, 20),")], ["C15.B2"])
+mut("c07-aliased-hash-cells", ["C07"], [(ST, '''	headersToTruncate := make([]*chainhash.Hash, len(headers)-1)
+	for i, header := range headers[1:] {
+		blkHash := header.BlockHash()
+		headersToTruncate[i] = &blkHash
+	}''', '''	var blkHash chainhash.Hash
+	headersToTruncate := make([]*chainhash.Hash, len(headers)-1)
+	for i := range headers[1:] {
+		blkHash = headers[i+1].BlockHash()
+		headersToTruncate[i] = &blkHash
+	}''')], ["C07.V2"])
+mut("c18-timer-reads-batch-record", ["C18"], [(WM, '''		gen := b.progressGen
+		bn := batchNum
+		b.progressTimer = time.AfterFunc(b.progressTimeout, func() {
+			select {
+			case w.progressWakes <- progressWake{
+				batchNum: bn,
+				gen:      gen,
+			}:''', '''		bn := batchNum
+		b.progressTimer = time.AfterFunc(b.progressTimeout, func() {
+			select {
+			case w.progressWakes <- progressWake{
+				batchNum: bn,
+				gen:      b.progressGen,
+			}:''')], ["C18.R2"])
+mut("c14-tip-hash-only-on-last-batch", ["C14"], [(HI, '''		chainTipBlockHeader := blockHeaders[len(blockHeaders)-1]
+		setLastFilterHeaderHash(filterHeaders, chainTipBlockHeader)
+	}
+''', '''		if batchEnd >= endHeight {
+			chainTipBlockHeader := blockHeaders[len(blockHeaders)-1]
+			setLastFilterHeaderHash(filterHeaders, chainTipBlockHeader)
+		}
+	}
+''')], ["C14.G2"])
+mut("c01-prev-checkpoint-not-strict", ["C01", "C04"], [(BM, '''		if height <= checkpoints[i].Height {
+			break
+		}
+		prevCheckpoint = &checkpoints[i]''', '''		if height < checkpoints[i].Height {
+			break
+		}
+		prevCheckpoint = &checkpoints[i]''')], ["C01.G6", "C04.O2"])
+mut("c01-last-header-not-linked", ["C01"], [(BM, '''	for _, blockHeader := range headers {
+		blockHash := blockHeader.BlockHash()
+
+		// If we haven't yet set lastHeader, set it now.''', '''	for i, blockHeader := range headers {
+		if i == len(headers)-1 {
+			break
+		}
+		blockHash := blockHeader.BlockHash()
+
+		// If we haven't yet set lastHeader, set it now.''')], ["C01.G3"])
+mut("quiet-prev-checkpoint-ge-form", ["C01", "C04"], [(BM, '''		if height <= checkpoints[i].Height {
+			break
+		}
+		prevCheckpoint = &checkpoints[i]''', '''		if !(checkpoints[i].Height < height) {
+			break
+		}
+		prevCheckpoint = &checkpoints[i]''')], [])
